@@ -18,13 +18,17 @@ for i in range(P):
     cnt = min(per, n - first)
     if cnt <= 0: break
     out = open(os.path.join(d, "o%d" % i), "w"); err = open(os.path.join(d, "e%d" % i), "w")
-    procs.append((subprocess.Popen([b, "--prop", prop, "--n", str(n), "--first", str(first), "--count", str(cnt)] + extra, stdout=out, stderr=err, env=env, cwd=d), i))
+    procs.append((subprocess.Popen([b, "--prop", prop, "--n", str(n), "--first", str(first), "--count", str(cnt), "--progress", os.path.join(d, "p%d" % i)] + extra, stdout=out, stderr=err, env=env, cwd=d), i))
 keys = {}; seen = {}; counters = {}; cases = 0
 for p, i in procs:
     rc = p.wait()
     if rc != 0:
         e = open(os.path.join(d, "e%d" % i), errors="replace").read()
-        print("proc %d rc=%d: %s" % (i, rc, check.classify_crash(e, rc)))
+        import array
+        a = array.array("Q")
+        try: a.frombytes(open(os.path.join(d, "p%d" % i), "rb").read(16))
+        except Exception: a = [-1]
+        print("proc %d rc=%d at case %d: %s" % (i, rc, a[0], check.classify_crash(e, rc)))
         lines = [l for l in e.splitlines() if "WARNING: timer" not in l]
         print("\n".join(lines[:3])[:600])
     for l in open(os.path.join(d, "o%d" % i)):
